@@ -2,7 +2,7 @@ package main
 
 // Registry of checks: which harness runs on which configurations per tier.
 
-const nCoreTables = 35
+const nCoreTables = 37
 
 func curlyOnly(tbl int) bool { return tbl == 2 || tbl == 3 || tbl == 6 || tbl == 18 || tbl == 22 || tbl == 28 }
 func hasMedia(tbl int) bool  { return tbl == 8 || tbl == 9 || tbl == 32 || tbl == 33 || tbl == 34 }
@@ -412,10 +412,32 @@ func properties() map[string]*propDef {
 		Items: func(tier string, seed int) []item {
 			const n = 9 // root path menu
 			var out []item
+			nhist := 0
 			add := func(router int, ops ...int) {
-				cfg := []int{0, 0, 0, 0, router}
-				copy(cfg, ops)
-				out = append(out, item{Harness: "H_C11", Cfg: cfg, Label: "history op1..op4 (10+i Add, 30+i Remove, 50+i Route GET /x, 70+i RemoveRoute GET /x, 110+i Route GET /x/ on root menu entry i; 90 Handle(/plain)), router"})
+				nhist++
+				// variant 0: GET probe after the history. One more variant rotates through early probe position x
+				// probe method x late switch to dynamic routes; histories of two and more operations also get an
+				// OPTIONS probe sent before the last operation and again at the end.
+				variants := []int{0, 1 + (nhist*7+seed)%19}
+				if len(ops) >= 2 {
+					variants = append(variants, 5+len(ops))
+					if last := ops[len(ops)-1]; last >= 50 && last != 90 {
+						variants = append(variants, 25+len(ops)) // the same with dynamic routes switched on only before the first route change
+					}
+				}
+				if tier == "thorough" {
+					variants = append(variants, 1+(nhist*7+seed+5)%19, 1+(nhist*7+seed+11)%19, 10+len(ops))
+				}
+				seen := map[int]bool{}
+				for _, v := range variants {
+					if seen[v] {
+						continue
+					}
+					seen[v] = true
+					cfg := []int{0, 0, 0, 0, router, v}
+					copy(cfg, ops)
+					out = append(out, item{Harness: "H_C11", Cfg: cfg, Label: "history op1..op4 (10+i Add, 30+i Remove, 50+i Route GET /x, 70+i RemoveRoute GET /x, 110+i Route GET /x/ on root menu entry i; 90 Handle(/plain)), router, variant (early probe position + 5*OPTIONS probe + 10*(dynamic routes switched on: 0 at once, 1 after the first routes, 2 before the first route change))"})
+				}
 			}
 			for i := 0; i < n; i++ {
 				add(0, 10+i)
@@ -452,10 +474,10 @@ func properties() map[string]*propDef {
 			return out
 		},
 		Bounds: map[string]interface{}{"history_length": "<= 4 operations from the empty container", "root_path_menu": []string{"/", "/a", "/a/", "/a/b", "/ab", "/{x}", "/a/{x}", "/a/{x}/c", "/a/{x}/d"},
-			"probe_path_bytes": 8, "probe_segments": 3, "probe_method": "GET"},
+			"probe_path_bytes": 8, "probe_segments": 3, "probe_method": "GET or OPTIONS (through the OPTIONS filter)", "early_probe": "the same request sent once before one of the operations (position by variant)"},
 		Assumptions: append([]string{"ServeMux is modelled by the Go 1.21 matching rules; probe paths that are not clean (the real mux redirects them) end the path as unmodelled",
 			"histories are enumerated explicitly (the inductive formulation of DESIGN 5/C11 was not built); the probe request is symbolic"}, commonAssumptions...),
-		Rule:           "enumerated histories over Add/Remove/Route/RemoveRoute/Handle on the root path menu (quick: all ordered pairs with each removal, a seeded quarter with a fourth operation or RouterJSR311; thorough: all, plus all triples); the history-built container and a fresh one with the model's content get the same symbolic probe through Dispatch and ServeHTTP",
+		Rule:           "enumerated histories over Add/Remove/Route/RemoveRoute/Handle on the root path menu (quick: all ordered pairs with each removal, a seeded quarter with a fourth operation or RouterJSR311; thorough: all, plus all triples); the history-built container and a fresh one with the model's content get the same symbolic probe through Dispatch and ServeHTTP; per history the variants GET-after-history, one rotating (early probe position x method x late dynamic switch) and OPTIONS-before-the-last-operation",
 		RequiredCovers: []string{"dispatch-routed", "serve-routed", "serve-404"},
 	}
 	m["C19"] = &propDef{
